@@ -81,6 +81,7 @@ func genReceiver(r *rng, n int, tier string, emit func(string)) {
 	for _, c := range []string{
 		"hist 1 ; send " + h("t") + " " + h("k") + " " + h("p1") + " ; ack " + h("t") + " " + h("k") + " - ; send " + h("t") + " " + h("k2") + " " + h("p2") + " ; eof 0 ; send " + h("t") + " " + h("k") + " " + h("p3") + " ; ack " + h("t") + " " + h("k") + " -",
 		"hist 2 ; send " + h("t") + " " + h("k") + " " + h("p") + " ; eof 0 ; eof 0 ; ack " + h("t") + " " + h("k") + " - ; eof 1",
+		"hist 1 ; send " + h("t") + " " + h("k") + " %513 ; send " + h("t") + " " + h("k2") + " %384 ; eof 0 ; send " + h("u") + " " + h("k") + " %2000 ; ack " + h("t") + " " + h("k2") + " %384",
 		"hist 3 ; send " + h("a") + " " + h("k") + " - ; eof 0 ; eof 1 ; eof 0 ; send " + h("b") + " " + h("k") + " " + h("x") + " ; eof 2 ; eof 1",
 		"hist 1 ; bad 0 ; bad 1 ; bad 2 ; send " + h("t") + " " + h("k") + " 00ff10 ; bad 3 ; eof 0 ; bad 4 ; kerr ; send " + h("t") + " " + h("k") + " 00",
 		"hist 1 ; send " + h("t") + " " + h("k") + " " + h("old") + " ; send " + h("t") + " " + h("k") + " " + h("new") + " ; send " + h("u") + " " + h("k") + " " + h("other") + " ; eof 0",
@@ -146,12 +147,18 @@ func genReceiver(r *rng, n int, tier string, emit func(string)) {
 				if r.chance(20) {
 					pl = []byte(strPool[r.intn(len(strPool))])
 				}
+				if r.chance(6) {
+					pl = patBytes(int(r.pick(200, 384, 511, 512, 513, 700, 2000))) // a rate-data document, a long request list
+				}
 				ops = append(ops, fmt.Sprintf("send %s %s %s", t, k, hx(pl)))
 			case x < 58:
 				// an acknowledgement carries the payload of what is acknowledged, or none
 				ap := "-"
 				if r.chance(50) {
 					ap = hx([]byte{byte(j), 0xac})
+				}
+				if r.chance(4) {
+					ap = hx(patBytes(int(r.pick(384, 513, 900))))
 				}
 				ops = append(ops, fmt.Sprintf("ack %s %s %s", t, k, ap))
 			case x < 65:
